@@ -123,7 +123,7 @@ def rename_map(names, how, rng):
 def _work(args):
     seed, k, prop = args
     rng = random.Random(f'{seed}:{prop}:{k}')
-    fam = rng.choice(['synth', 'synth', 'crop', 'split', 'chain', 'exact', 'degenerate'] + (['sync', 'sync', 'sync'] if prop == 'C16' else []))
+    fam = rng.choice(['synth', 'synth', 'crop', 'split', 'chain', 'exact', 'degenerate', 'drift', 'drift', 'bundle'] + (['sync', 'sync', 'sync'] if prop == 'C16' else []))
     if fam == 'sync':
         # several ceilometers on the same time grid, different heights inside one layer, look-back cutting a time step
         nc = rng.choice([2, 3])
